@@ -530,9 +530,11 @@ def spec_apply(doc, sel, selattrs, op):
         elif name == 'after':
             emit_nodes([n])
             out.extend(content_events(op[1]))
-        elif name == 'wrap':
+        elif name in ('wrap', 'wrapel'):
             w = ['', op[1]]
             out.append(['S', w, [[['', a], v] for a, v in op[2]]])
+            if name == 'wrapel':
+                emit_nodes(op[3])
             emit_nodes([n])
             out.append(['E', w])
         elif name == 'unwrap':
@@ -543,6 +545,10 @@ def spec_apply(doc, sel, selattrs, op):
             out.append(['E', ['', op[1]]])
         elif name == 'attr':
             out.append(['S', n[1], attrs_set(n[2], op[1], op[2])])
+            emit_nodes(n[3])
+            out.append(['E', n[1]])
+        elif name == 'attrfn':
+            out.append(['S', n[1], attrs_set(n[2], op[1], attr_get(n, op[2]))])
             emit_nodes(n[3])
             out.append(['E', n[1]])
         elif name == 'prepend':
@@ -575,9 +581,11 @@ def spec_apply(doc, sel, selattrs, op):
         elif name == 'after':
             emit_nodes(nodes)
             out.extend(content_events(op[1]))
-        elif name == 'wrap':
+        elif name in ('wrap', 'wrapel'):
             w = ['', op[1]]
             out.append(['S', w, [[['', a], v] for a, v in op[2]]])
+            if name == 'wrapel':
+                emit_nodes(op[3])
             emit_nodes(nodes)
             out.append(['E', w])
         else:
@@ -647,12 +655,19 @@ def gen_op(rng, bufs, doc=None):
         return ['select', gen_path_for(rng, doc) if doc else gen_path(rng)]
     if r < 0.40:
         return [rng.choice(INJECT), rng.choice(CONTENTS)]
-    if r < 0.52:
+    if r < 0.49:
         return ['wrap', rng.choice(['w', 'a']), rng.choice([[], [], [['k', 'v']]])]
+    if r < 0.52:
+        # an Element with children as wrapper: the children come first inside the wrapper
+        return ['wrapel', rng.choice(['w', 'a']), rng.choice([[], [['k', 'v']]]),
+                rng.choice([[['t', 'lead']], [['e', ['', 'i'], [], [['t', 'k']]]], [['c', 'x'], ['t', 'y']]])]
     if r < 0.60:
         return ['rename', rng.choice(['n', 'a', 'b'])]
-    if r < 0.70:
+    if r < 0.68:
         return ['attr', rng.choice(ATTRS + ['k']), rng.choice([None, 'new', '1', ''])]
+    if r < 0.70:
+        # a callable value: copy another attribute of the element (None, i.e. delete, when it is missing)
+        return ['attrfn', rng.choice(ATTRS + ['k']), rng.choice(ATTRS)]
     if r < 0.76:
         return ['copy', rng.choice([0, 1]), rng.random() < 0.5]
     if r < 0.82:
@@ -670,7 +685,7 @@ def has_attr(path):
     return any(a.get('attr') for a in path['alts'])
 
 
-ZERO_WIDTH = ('before', 'after', 'wrap', 'filter', 'replace')
+ZERO_WIDTH = ('before', 'after', 'wrap', 'wrapel', 'filter', 'replace')
 
 
 def gen_chain(rng, maxlen=4, doc=None, wild=False):
@@ -725,7 +740,7 @@ def admissible(ops):
             dirty = True
         elif op[0] == 'select':
             dirty = False
-        elif dirty and op[0] in ('remove', 'replace', 'wrap', 'cut', 'filter', 'copy'):
+        elif dirty and op[0] in ('remove', 'replace', 'wrap', 'wrapel', 'cut', 'filter', 'copy'):
             return False
     return True
 
